@@ -51,6 +51,10 @@ class Run:
         self.discarded = [dict() for _ in pools]     # serial -> times
         self.first_sent = [[] for _ in pools]        # poolserials in order of envelope starts
         self.nbuffered = [0 for _ in pools]          # undelivered events per pool after the previous operation
+        # conservation, step by step (the Lean theorem `conservation` as a trace monitor over observables only):
+        # where each accepted event of each pool is -- 'buf' | ('held', listener) | 'ok' | 'discarded'
+        self.place = [dict() for _ in pools]
+        self.queue = [[] for _ in pools]             # the pool's undelivered events, oldest first, as the statement orders them
         self.pid = 100
         for op in script:
             self.do(op)
@@ -118,6 +122,12 @@ class Run:
         self.ctx.count('op:' + t[0])
         if err != '-' and not err.startswith('OSError:11'):
             self.viol.append(('exception-escaped:' + err.split(':')[0], '%r raised %s' % (op, err)))
+        for qi in range(len(self.pools)):
+            for evid in range(ev0, w.next_ev):
+                if evid in self.accepted[qi] and evid not in self.place[qi]:
+                    self.place[qi][evid] = 'buf'
+                    self.queue[qi].append(evid)      # a newly accepted event joins at the tail
+        self.ledger(op, outs)
         for o in outs:
             f = o.split(':')
             self.ctx.count('out:' + f[0])
@@ -165,6 +175,75 @@ class Run:
                 for li in range(len(ls)):
                     if (pi, li) != (pi0, li0) and w.lstate(pi, li) != before[pi][li]:
                         self.viol.append(('listener-disturbed', 'bytes from listener %d.%d changed listener %d.%d: %s -> %s' % (pi0, li0, pi, li, before[pi][li], w.lstate(pi, li))))
+
+    def ledger(self, op, outs):
+        """every accepted event of a pool is in exactly one place at every moment: it is handed to a listener only
+        from the buffer (never while another listener of the pool holds it, never after it is gone), only the
+        listener holding it answers for it or gives it back, and only a buffered event is discarded"""
+        w = self.w
+        by_serial = {getattr(ev, 'serial', None): i for i, ev in enumerate(w.evobjs)}
+        pend = []        # an event given back by a listener goes to the head -- after the overflow rule has made room
+
+        def settle():
+            while pend:
+                qi_, ev_ = pend.pop()
+                self.queue[qi_].insert(0, ev_)
+
+        def take(qi_, ev_, kind, what):
+            q = self.queue[qi_]
+            if not q or q[0] != ev_:
+                self.viol.append((kind, 'pool %s %s event %r during %r, but its oldest undelivered event is %r (queue %r)' % (
+                    self.pools[qi_][0], what, ev_, op, q[0] if q else None, q)))
+            if ev_ in q:
+                q.remove(ev_)
+
+        for o in outs:
+            f = o.split(':')
+            if f[0] == 'discard':
+                qi = int(f[1])
+                if 0 <= qi < len(self.pools):
+                    if pend and pend[-1][0] != qi:
+                        settle()
+                    take(qi, by_serial.get(int(f[2])) if f[2].lstrip('-').isdigit() else None, 'discarded-not-oldest', 'discarded')
+            settle()
+            if f[0] == 'ls' and f[2] == 'READY>BUSY':
+                qi, qli = [int(x) for x in f[1].split('.')]
+                take(qi, w.evids.get(id(w.proc(qi, qli).event)), 'sent-not-oldest', 'sent')
+            elif f[0] == 'rej' and f[2].isdigit():
+                pend.append((int(f[1].split('.')[0]), int(f[2])))
+        settle()
+        for o in outs:
+            f = o.split(':')
+            if f[0] == 'ls' and f[2] == 'READY>BUSY':
+                qi, qli = [int(x) for x in f[1].split('.')]
+                evid = w.evids.get(id(w.proc(qi, qli).event))
+                where = self.place[qi].get(evid)
+                if where != 'buf':
+                    kind = 'event-sent-to-unsubscribed-pool' if where is None else \
+                        'event-sent-while-held' if isinstance(where, tuple) else 'event-sent-after-it-left-the-pool'
+                    self.viol.append((kind, 'pool %s handed event %r to listener %d during %r while it was %r' % (
+                        self.pools[qi][0], evid, qli, op, where)))
+                self.place[qi][evid] = ('held', qli)
+            elif f[0] in ('h', 'rej') and f[2] != '-':
+                qi, qli = [int(x) for x in f[1].split('.')]
+                evid = int(f[2]) if f[2].isdigit() else None
+                where = self.place[qi].get(evid)
+                if f[0] == 'rej':
+                    if where != ('held', qli):
+                        self.viol.append(('rejected-event-not-held', 'listener %d.%d gave back event %r during %r, which was %r' % (qi, qli, evid, op, where)))
+                    self.place[qi][evid] = 'buf'
+                elif f[3] == '4f4b':
+                    if where != ('held', qli):
+                        self.viol.append(('ok-for-event-not-held', 'listener %d.%d answered OK for event %r during %r, which was %r' % (qi, qli, evid, op, where)))
+                    self.place[qi][evid] = 'ok'
+            elif f[0] == 'discard':
+                qi = int(f[1])
+                evid = by_serial.get(int(f[2])) if f[2].lstrip('-').isdigit() else None
+                where = self.place[qi].get(evid) if 0 <= qi < len(self.pools) else None
+                if where != 'buf':
+                    self.viol.append(('discarded-event-not-buffered', 'pool %d logged the discard of serial %s (event %r) during %r, which was %r' % (qi, f[2], evid, op, where)))
+                if 0 <= qi < len(self.pools):
+                    self.place[qi][evid] = 'discarded'
 
     # -- end of scenario: drain every pool through a fresh well-behaved listener -------------
     def drain(self):
@@ -297,6 +376,9 @@ def gen_script(rng, pools, n, world_state=None):
         elif r < 0.94:
             ops.append('pstate %d %d %s' % (pi, li, rng.choice(['running', 'starting', 'stopping', 'running'])))
         elif r < 0.97:
+            if rng.random() < 0.4:
+                # a stop request: the listener is reaped while STOPPING (possibly BUSY)
+                ops.append('pstate %d %d stopping' % (pi, li))
             ops.append('die %d %d %s x' % (pi, li, rng.choice(['-', '-', b'RESULT 2\nOK'.hex()])))
         else:
             pid += 1
@@ -359,6 +441,14 @@ def corpus():
         # F13 (fixed): full stdin at dispatch time
         ('strict', [('a', 3, 1, ['TICK'])], ['spawn 0 0 11', 'pstate 0 0 running', 'cap 0 0 0', tick, 'read 0 0 ' + READY.hex(), 'transition 0',
                                            'cap 0 0 inf', 'wev 0 0', 'read 0 0 ' + b'RESULT 2\nOK'.hex()]),
+        # death while BUSY of a listener that is being stopped (STOPPING -> STOPPED): the event goes back to the head
+        ('strict', [('a', 3, 1, ['TICK'])], ['spawn 0 0 11', 'pstate 0 0 running', tick, tick, 'read 0 0 ' + READY.hex(), 'transition 0',
+                                           'pstate 0 0 stopping', 'die 0 0 - x', 'spawn 0 0 12', 'pstate 0 0 running',
+                                           'read 0 0 ' + READY.hex(), 'transition 0', 'read 0 0 ' + b'RESULT 2\nOKREADY\n'.hex(), 'transition 0']),
+        # ... and with an answer still in the pipe when it is reaped
+        ('default', [('a', 2, 2, ['TICK_5']), ('b', 2, 1, ['TICK'])], up2 + [tick, 'read 0 0 ' + READY.hex(), 'read 1 0 ' + READY.hex(),
+                                                                         'transition 0', 'transition 1', 'pstate 1 0 stopping',
+                                                                         'die 1 0 - x', 'pstate 0 0 stopping', 'die 0 0 ' + b'RESULT 4\nFAIL'.hex() + ' x']),
         # death while BUSY
         ('strict', [('a', 3, 2, ['EVENT'])], ['spawn 0 0 11', 'pstate 0 0 running', 'spawn 0 1 12', 'pstate 0 1 running', tick,
                                             'read 0 0 ' + READY.hex(), 'transition 0', 'die 0 0 - x', 'read 0 1 ' + READY.hex(), 'transition 0']),
